@@ -208,17 +208,25 @@ class RecordingContext(dict):
         dict.__init__(self, *a, **k)
         self.reads = []
         self.writes = []
+        # reads of a key that this statement execution has not written yet: these come from the
+        # enclosing scope even when the key is named like one of the statement's loop counters
+        self.scope_reads = []
+
+    def _read(self, k):
+        self.reads.append(k)
+        if k not in self.writes:
+            self.scope_reads.append(k)
 
     def __getitem__(self, k):
-        self.reads.append(k)
+        self._read(k)
         return dict.__getitem__(self, k)
 
     def __contains__(self, k):
-        self.reads.append(k)
+        self._read(k)
         return dict.__contains__(self, k)
 
     def get(self, k, d=None):
-        self.reads.append(k)
+        self._read(k)
         return dict.get(self, k, d)
 
     def __setitem__(self, k, v):
@@ -234,7 +242,7 @@ class RecordingContext(dict):
         return dict.pop(self, k, *d)
 
     def setdefault(self, k, d=None):
-        self.reads.append(k)
+        self._read(k)
         if not dict.__contains__(self, k):
             self.writes.append(k)
         return dict.setdefault(self, k, d)
@@ -283,6 +291,7 @@ def observe(inp):
     except Exception as ex:           # exceptional exit: what was touched so far still counts
         outcome = "raised " + type(ex).__name__
     reads, writes = set(rec.reads), set(rec.writes)
+    observe.scope_reads = set(rec.scope_reads)
     after = dict(rec)
     changed = set()
     for k in set(before) | set(after):
@@ -314,7 +323,8 @@ def evaluate(inp):
     stmt, reads, writes, changed, R, W, outcome = observe(inp)
     pos, idents, _ = syntactic(stmt)
     viol = []
-    und_r = reads - R - W - idents
+    # a read is excused as a loop counter only if the statement itself had bound that name before
+    und_r = (reads - R - W - idents) | (getattr(observe, "scope_reads", set()) - R - W)
     if und_r:
         viol.append(("reads", "%s: reads %s not in declared reads %s / writes %s (%s)"
                      % (stmt, sorted(und_r), sorted(R), sorted(W), outcome), sorted(und_r)))
@@ -386,7 +396,10 @@ def exhaustive_statements():
            ["*", "<dt>", ["[]", "a", ["%", "<p>k", 4]]]]
     loops = [[], [["i", 0, 3]], [["i", 0, "n"]], [["i", "j", "n"]],
              [["i", 0, 2], ["l", 0, ["+", "<p>k", -1]]], [["i", 0, 0]],
-             [["l", ["-", "n", "x"], ["min", "n", 2]], ["i", 0, ["[]", "a", 2]]]]
+             [["l", ["-", "n", "x"], ["min", "n", 2]], ["i", 0, ["[]", "a", 2]]],
+             # a bound that names a variable identical to the counter ("continue from the current i"):
+             # bounds are evaluated in the enclosing scope before the counter is bound
+             [["i", "i", "n"]], [["l", 0, 2], ["i", "l", ["+", "i", 1]]]]
     for (l, sub), r, lp, c in itertools.product(lhs, rhs, loops, CONDS):
         s = {"t": "Assign", "lhs": l, "sub": sub, "rhs": r, "loops": lp, "cond": c}
         used = svars(r) | svars(sub)
